@@ -143,7 +143,7 @@ def snap(variants, x, left):
 
 def generate(rng, n_samples=(1, 2), n_contigs=(1, 1), ref_len=(300, 500), n_variants=(3, 8), read_len=(40, 120), depth=(2, 8),
              kinds=("snv", "snv", "ins", "del", "mnp"), hom_frac=0.15, softclip=0.2, eqx=0.2, paired=0.0, unrelated_indel=0.0,
-             supplementary=0.0, duplicate=0.0, secondary=0.0, unmapped=0, two_hets_per_read=False, snap_prob=1.0):
+             supplementary=0.0, duplicate=0.0, secondary=0.0, unmapped=0, two_hets_per_read=False, snap_prob=1.0, ploidy=2):
     contigs = []
     samples = ["S%d" % i for i in range(rng.randint(*n_samples))]
     for ci in range(rng.randint(*n_contigs)):
@@ -158,19 +158,20 @@ def generate(rng, n_samples=(1, 2), n_contigs=(1, 1), ref_len=(300, 500), n_vari
     for s in samples:
         truth[s] = {}
         for c in contigs:
-            haps = [[], []]
+            haps = [[] for _ in range(ploidy)]
             for v in c["variants"]:
                 if rng.random() < hom_frac:
                     a = rng.randint(0, 1)
-                    haps[0].append(a)
-                    haps[1].append(a)
+                    col = [a] * ploidy
                 else:
-                    a = rng.randint(0, 1)
-                    haps[0].append(a)
-                    haps[1].append(1 - a)
+                    k = rng.randint(1, ploidy - 1)
+                    col = [1] * k + [0] * (ploidy - k)
+                    rng.shuffle(col)
+                for h in range(ploidy):
+                    haps[h].append(col[h])
             truth[s][c["name"]] = haps
             L = len(c["seq"])
-            for h in (0, 1):
+            for h in range(ploidy):
                 n = rng.randint(*depth)
                 total = n * L // max(1, (read_len[0] + read_len[1]) // 2)
                 for _ in range(max(total, 1)):
@@ -262,6 +263,64 @@ def vcf_text(sc, phased=None, samples=None):
     return "\n".join(lines) + "\n"
 
 
+def phased_vcf(sc, rng, max_sets=3, interleave=0.3, samples=None, unphased_frac=0.1):
+    """A phased VCF of the truth with several phase sets per contig; within a set the haplotypes are listed in a random order.
+    -> (text, phasing) with phasing[sample][contig][variant index] = None | (set id, tuple of alleles in VCF haplotype order)."""
+    samples = samples or sc["samples"]
+    lines = ["##fileformat=VCFv4.2", '##FORMAT=<ID=GT,Number=1,Type=String,Description="Genotype">',
+             '##FORMAT=<ID=PS,Number=1,Type=Integer,Description="Phase set identifier">']
+    for c in sc["contigs"]:
+        lines.append("##contig=<ID=%s,length=%d>" % (c["name"], len(c["seq"])))
+    lines.append("\t".join(["#CHROM", "POS", "ID", "REF", "ALT", "QUAL", "FILTER", "INFO", "FORMAT"] + samples))
+    phasing = {s: {} for s in samples}
+    for c in sc["contigs"]:
+        n = len(c["variants"])
+        per_sample = {}
+        for s in samples:
+            haps = sc["truth"][s][c["name"]]
+            p = len(haps)
+            k = rng.randint(1, max_sets)
+            if rng.random() < interleave:
+                label = [rng.randrange(k) for _ in range(n)]
+            else:
+                cuts = sorted(rng.sample(range(n + 1), min(k - 1, n + 1))) if k > 1 else []
+                label = []
+                b = 0
+                for i in range(n):
+                    while b < len(cuts) and i >= cuts[b]:
+                        b += 1
+                    label.append(b)
+            perms = {}
+            first = {}
+            out = []
+            for i, v in enumerate(c["variants"]):
+                col = [haps[h][i] for h in range(p)]
+                if len(set(col)) == 1 or rng.random() < unphased_frac:
+                    out.append(None)
+                    continue
+                L = label[i]
+                if L not in perms:
+                    perm = list(range(p))
+                    rng.shuffle(perm)
+                    perms[L] = perm
+                    first[L] = v["pos"] + 1
+                out.append((first[L], tuple(col[perms[L][j]] for j in range(p))))
+            per_sample[s] = out
+            phasing[s][c["name"]] = out
+        for i, v in enumerate(c["variants"]):
+            calls = []
+            for s in samples:
+                ph = per_sample[s][i]
+                haps = sc["truth"][s][c["name"]]
+                col = sorted(haps[h][i] for h in range(len(haps)))
+                if ph is None:
+                    calls.append("/".join(map(str, col)) + ":.")
+                else:
+                    calls.append("|".join(map(str, ph[1])) + ":%d" % ph[0])
+            lines.append("\t".join([c["name"], str(v["pos"] + 1), ".", v["ref"], v["alt"], ".", "PASS", ".", "GT:PS"] + calls))
+    return "\n".join(lines) + "\n", phasing
+
+
 def materialize(sc, d, bam_name="reads.bam", read_groups=True, extra_reads=(), sort=True):
     """Write reference.fasta(+.fai), reads.bam(+.bai) into directory d. Returns dict of paths."""
     import pysam
@@ -313,3 +372,15 @@ def materialize(sc, d, bam_name="reads.bam", read_groups=True, extra_reads=(), s
         os.replace(unsorted, bam)
     pysam.index(bam)
     return dict(fasta=fasta, bam=bam)
+
+
+def write_indexed_vcf(text, path_gz):
+    """bgzip + tabix a VCF text (haplotag / haplotagphase need an index)"""
+    import pysam
+    plain = path_gz[:-3] if path_gz.endswith(".gz") else path_gz + ".plain"
+    with open(plain, "w") as f:
+        f.write(text)
+    pysam.tabix_compress(plain, path_gz, force=True)
+    pysam.tabix_index(path_gz, preset="vcf", force=True)
+    os.unlink(plain)
+    return path_gz
